@@ -13,9 +13,9 @@ type Obj struct {
 	// LabelsNil: Labels is a nil map (token `nil`); krt.FilterSelects(nil) does not filter at all
 	LabelsNil bool
 	Sel       map[string]string
-	Outs     []string
-	Ref      string
-	Val      string
+	Outs      []string
+	Ref       string
+	Val       string
 }
 
 func (o Obj) ResourceName() string                { return o.NS + "/" + o.Name }
@@ -94,12 +94,12 @@ func (o Out) ResourceName() string { return o.Key }
 
 // Atom kinds of a fetch filter.  Lean: FAtom.
 type Atom struct {
-	Kind string // key selects selectsNE label nsIndex valIndex generic
+	Kind string // key selects selectsNE label nsIndex valIndex outIndex keys objName generic
 	N    int
 }
 
 type Transform struct {
-	Multi   bool
+	Multi bool
 	// ByVal: one-to-one, output key = "val/" + input.Val (not the input's key: it moves between parents)
 	ByVal   bool
 	Gate    bool
@@ -144,7 +144,7 @@ func parseTransform(t string) (Transform, bool) {
 		var as []Atom
 		for _, a := range splitNE(f, "+") {
 			switch {
-			case a == "key" || a == "selects" || a == "selectsNE" || a == "label" || a == "nsIndex" || a == "valIndex" || a == "keys" || a == "objName":
+			case a == "key" || a == "selects" || a == "selectsNE" || a == "label" || a == "nsIndex" || a == "valIndex" || a == "outIndex" || a == "keys" || a == "objName":
 				as = append(as, Atom{Kind: a})
 			case strings.HasPrefix(a, "g"):
 				if n, err := strconv.Atoi(a[1:]); err == nil {
@@ -195,6 +195,19 @@ func keepClaims(t Transform, o Obj, ok func(k string) bool) Obj {
 		}
 	}
 	return o
+}
+
+// outKeyOf: the key looked up in the multi-key index (extractor: o.Outs), chosen by the input's value.
+func outKeyOf(i Obj) string {
+	switch i.Val {
+	case "v1":
+		return "k1"
+	case "v2":
+		return "k2"
+	case "v3":
+		return "k3"
+	}
+	return "k4"
 }
 
 func genericPred(n int, i, o Obj) bool {
